@@ -102,6 +102,15 @@ def judge(n, ops, opts, res, known=()):
         if r in restricted:
             res.label("skipped:argument-of-restricted-domain-function")
             continue
+        if c.kind == "func" and c.type in ("ExpAConstraint", "LogAConstraint"):
+            try:
+                base = float.fromhex(d["params"][0]) if isinstance(d["params"][0], str) else float(d["params"][0])
+            except Exception:
+                base = 1.0
+            if base <= 0 or base == 1:
+                # a^x / log_a x with a non-positive base is not a real function of a continuous argument (defined at isolated points only)
+                res.label("skipped:non-positive-base")
+                continue
         if c.kind == "func":
             argv = list(d["args"])
         elif c.kind == "cond":
